@@ -625,6 +625,56 @@ func ruleAppendComparesTypes(c *Ctx) {
 	c.Floor(rule, s.Name, "column-data append sites", len(sites), 1)
 	c.Check(typeCmp > 0, rule, s.Name, "merge-guard-compares-types", c.P.Pos(s.Body.Pos()),
 		"before appending another symbol's column bytes the guard compares element TYPES, not only column names (otherwise int32 bytes are appended to a column declared float32 and decoded wrongly for that symbol)")
+	// R13.4: the bytes are appended POSITIONALLY (ColumnData[idx] gets the idx-th column of the
+	// series), so the guard must compare names position by position — X[i] against Y[i] with the
+	// same index variable — not by set/map membership (a same-names-other-order series would swap
+	// the values of its columns).
+	positional := false
+	walkAll(s.Body, func(n ast.Node) bool {
+		b, ok := isCompareNode(n, token.NEQ, token.EQL)
+		if !ok {
+			return true
+		}
+		ix, okx := unparen(b.X).(*ast.IndexExpr)
+		iy, oky := unparen(b.Y).(*ast.IndexExpr)
+		if !okx || !oky {
+			return true
+		}
+		oi, oj := identObj(s.Info, ix.Index), identObj(s.Info, iy.Index)
+		names := func(e ast.Expr) bool {
+			return mentionsField(s.Info, e, "utils/io.NumpyDataset.ColumnNames") || strings.Contains(canonExpr(s.Info, e), "ColumnNames")
+		}
+		_, xIsName := s.Info.TypeOf(ix).Underlying().(*types.Basic)
+		if oi != nil && (oi == oj || isRangeKeyValuePair(s, ix, iy, b)) && xIsName && (names(ix.X) || names(iy.X)) {
+			positional = true
+		}
+		return true
+	})
+	// also accept `for idx, name := range nmds.ColumnNames { if name != other[idx]`
+	walkAll(s.Body, func(n ast.Node) bool {
+		rs, ok := n.(*ast.RangeStmt)
+		if !ok || rs.Key == nil || rs.Value == nil || !mentionsField(s.Info, rs.X, "utils/io.NumpyDataset.ColumnNames") {
+			return true
+		}
+		k, v := identObj(s.Info, rs.Key), identObj(s.Info, rs.Value)
+		walkAll(rs.Body, func(m ast.Node) bool {
+			b, ok := isCompareNode(m, token.NEQ, token.EQL)
+			if !ok {
+				return true
+			}
+			for _, pair := range [][2]ast.Expr{{b.X, b.Y}, {b.Y, b.X}} {
+				if identObj(s.Info, pair[0]) == v && v != nil {
+					if ix, ok := unparen(pair[1]).(*ast.IndexExpr); ok && identObj(s.Info, ix.Index) == k && k != nil {
+						positional = true
+					}
+				}
+			}
+			return true
+		})
+		return true
+	})
+	c.Check(positional, "R13.4", s.Name, "names-compared-position-by-position", c.P.Pos(s.Body.Pos()),
+		"the merge guard compares the dataset's i-th column name with the series' i-th column name (the bytes are appended by position)")
 	// and a mismatch leaves through an error before any append
 	r := s.Run(Query{Target: grow, Barrier: func(sub, top ast.Node) bool {
 		b, ok := isCompareNode(sub, token.NEQ, token.EQL)
